@@ -412,16 +412,21 @@ class Connection(ExportImport):
         # the savepoint, then they won't have _p_oid or _p_jar after
         # they've been unadded. This will make the code in _abort
         # confused.
-        self._abort()
-
         if self._savepoint_storage is not None:
+            self._abort(self._savepoint_storage.creating)
             self._abort_savepoint()
+        else:
+            self._abort()
 
         self._invalidate_creating()
         self._tpc_cleanup()
 
-    def _abort(self):
-        """Abort a transaction and forget all changes."""
+    def _abort(self, disowned=()):
+        """Abort a transaction and forget all changes.
+
+        `disowned` holds the oids of new objects stored in savepoints that
+        the caller is about to disown.
+        """
 
         for obj in self._registered_objects:
             oid = obj._p_oid
@@ -434,11 +439,14 @@ class Connection(ExportImport):
                 del obj._p_oid
                 if obj._p_changed:
                     obj._p_changed = False
-            elif oid in self._creating:
-                # A new object that the failing commit has already
-                # stored.  It is disowned by _invalidate_creating(); its
-                # state cannot be reloaded, so it must not become a ghost.
-                pass
+            elif oid in self._creating or oid in disowned:
+                # A new object that the failing commit (or a savepoint
+                # being discarded) has already stored.  It is disowned by
+                # _invalidate_creating(); its state cannot be reloaded, so
+                # it must not become a ghost.  A blob keeps no state of its
+                # own, and invalidating it removes its uncommitted file.
+                if isinstance(obj, Blob):
+                    obj._p_invalidate()
             else:
                 # Note: If we invalidate a non-ghostifiable object
                 # (i.e. a persistent class), the object will
@@ -1001,13 +1009,13 @@ class Connection(ExportImport):
         return result
 
     def _rollback_savepoint(self, state):
-        self._abort()
-        self._registered_objects = []
         src = self._storage
+        created_after = [oid for oid in src.creating if oid not in state[2]]
+        self._abort(created_after)
+        self._registered_objects = []
 
         # Invalidate objects created *after* the savepoint.
-        self._invalidate_creating(oid for oid in src.creating
-                                  if oid not in state[2])
+        self._invalidate_creating(created_after)
         index = src.index
         src.reset(*state)
         self._cache.invalidate(index)
